@@ -61,6 +61,9 @@ func parseTree(raw []json.RawMessage) (Tree, error) {
 	return t, nil
 }
 
+// ParseTreeJSON parses a tree given as a list of [path, value] pairs.
+func ParseTreeJSON(raw []json.RawMessage) (Tree, error) { return parseTree(raw) }
+
 // ParseCase parses one TLC output line (a TLA+ string holding JSON).
 func ParseCase(line string) (*Case, error) {
 	var inner string
